@@ -50,6 +50,9 @@ pub fn enter_file(path: &Path) {
         .map(|s| s.to_string_lossy().into_owned())
         .unwrap_or_default();
     CURRENT.with(|c| *c.borrow_mut() = stem);
+    // `start:<stem>` lets a schedule make sure every walker holds its file before the
+    // first send (a walker that has not dequeued its file yet would skip it after a Quit).
+    file_point("start");
 }
 
 /// A point labelled `<kind>:<current file stem>`.
